@@ -326,6 +326,8 @@ func RunC08(c *Ctx) {
 			}
 		}
 	}
+	// identifiers that spell a pseudo-keyword of the same sentence (always back-quoted) are ordinary identifiers
+	pkwNamedWorkload(c, func(entry, input string) { CheckC08(c, entry, input) })
 	// keyword-like identifiers in lower / upper case are covered by render policies 0 (upper) and 1 (lower)
 	// scope probes (fixed, hand-written): documented forms that are restricted out of G, see internal/gen/SCOPE.md
 	for i, pr := range ScopeProbes {
@@ -363,6 +365,7 @@ var ScopeProbes = []ScopeProbe{
 	{"query", "SELECT * FROM ((SELECT 1))"},
 	{"dml", "DELETE FROM t WHERE TRUE THEN RETURN WITH(a AS 1, a)"},
 	{"expr", "a[`offset`]"},
+	{"ddl", "CREATE TABLE t (a ARRAY<`string`>) PRIMARY KEY (a)"},
 }
 
 // ---------------------------------------------------------------------------
